@@ -10,11 +10,11 @@ from vf.rigs import ACK
 from vf.world import World
 
 
-def harness(ctx, M, K, rounds=None, swap=True, limits=None):
+def harness(ctx, M, K, rounds=None, swap=True, limits=None, kinds=None):
     w = World(ctx, injective=True, nonzero_source=True)
     x = ctx.int("x", 0, 2**16)
     w.witness = x
-    faults = ["deliver", "drop", "dup"] + (["swap"] if swap else [])
+    faults = list(kinds) if kinds else ["deliver", "drop", "dup"] + (["swap"] if swap else [])
     sysm, cfg = c02.setup(ctx, w, M, 2, 2, K=K, modes=(ACK,), cktypes=[ChecksumType.CRC_32],
                           limits=(K + 1) if limits is None else limits, shapes=("file",), faults=faults,
                           fixed={"crc": False, "use_L": False})
@@ -39,14 +39,21 @@ def plan(tier):
     for m, k in combos:
         specs.append(Spec(f"recover/M={m}/K={k}", "vf.harness.c03:harness", {"M": m, "K": k}, twin_share=0.02,
                           obligations=[f"faults_used={k}"]))
+    # deeper reordering (a PDU overtaken by the next two) combined with loss, three segments
+    specs.append(Spec("recover/loss+reorder-by-two/M=3/K=2", "vf.harness.c03:harness",
+                      {"M": 3, "K": 2, "kinds": ["deliver", "drop", "swap2"]}, twin_share=0.02,
+                      obligations=["faults_used=2"]))
+    if tier != "quick":
+        specs.append(Spec("recover/all-kinds/M=3/K=2", "vf.harness.c03:harness",
+                          {"M": 3, "K": 2, "kinds": ["deliver", "drop", "dup", "swap", "swap2"]}, twin_share=0.02))
     return specs
 
 
 BOUNDS = {
-    "quick": "acknowledged mode, immediate and deferred NAK, closure on/off, CRC-32, widths (2,2); file of at most M segments with symbolic size and max packet length; every transmission in either direction gets a solver-forked fault (deliver / drop / duplicate / hold back behind the next PDU) and every round with PDUs in flight a possible timer expiry (delay fault) while the budget K lasts; all expiration limits = K+1; (M,K) = (2,1), (1,2), (2,2); after the budget the link is reliable and the clock advances whenever the system is quiescent; a run still busy after 14+10K+2M rounds is given ten times as long before it counts as stuck",
+    "quick": "acknowledged mode, immediate and deferred NAK, closure on/off, CRC-32, widths (2,2); file of at most M segments with symbolic size and max packet length; every transmission in either direction gets a solver-forked fault (deliver / drop / duplicate / hold back behind the next PDU; plus a run with drop / hold back behind the next TWO PDUs on three segments) and every round with PDUs in flight a possible timer expiry (delay fault) while the budget K lasts; all expiration limits = K+1; (M,K) = (2,1), (1,2), (2,2); after the budget the link is reliable and the clock advances whenever the system is quiescent; a run still busy after 14+10K+2M rounds is given ten times as long before it counts as stuck",
     "thorough": "(M,K) = (2,1), (2,2), (3,2), (1,3)",
 }
-OUTSIDE = "more than K faults, more than M segments, reordering deeper than one position per fault, corruption (C01), unacknowledged mode"
+OUTSIDE = "more than K faults, more than M segments, reordering deeper than two positions per fault, corruption (C01), unacknowledged mode"
 FUNCTIONS = c02.FUNCTIONS
 EXPLANATION = "Closed system as C02 with a fault decision per transmission charged to a budget; quiescence forces timer expiry."
 ASSUMPTIONS = c02.ASSUMPTIONS + ["every expiration limit is K+1", "a PDU refused by a handler's admission check is dropped by the entity and the handler is called again without packet"]
